@@ -51,6 +51,7 @@ structure Limits where
   hasSafe : Bool := false
   catchDepth : Nat := 0
   noCodeCallbacks : Nat := 0   -- the program makes this many efun callbacks that execute no instruction
+  rxMustExpire : Bool := false -- the evaluation makes a regexp match that needs more node visits than the whole budget pays for
   deriving Repr
 
 /-- ticks the master's error handler may use per invocation (it runs on a refreshed budget, once per catch frame
@@ -198,9 +199,11 @@ def judgeMapSeq (lim : Limits) (v : String) : List String :=
 
 /-- an evaluation that returned normally although its program makes more code-less callbacks than the budget -/
 def judgeCallbacks (lim : Limits) : List String :=
-  if lim.cost > 0 ∧ (lim.noCodeCallbacks : Int) > lim.cost + handlerAllowance then
+  (if lim.cost > 0 ∧ (lim.noCodeCallbacks : Int) > lim.cost + handlerAllowance then
     [s!"eval-exceeded uncharged-callbacks callbacks={lim.noCodeCallbacks} budget={lim.cost}"]
-  else []
+  else []) ++
+  -- ... or although one of its regexp matches alone needs more node visits than the budget pays for
+  (if lim.rxMustExpire then [s!"eval-exceeded uncharged-regexp budget={lim.cost}"] else [])
 
 structure JState where
   lim : Limits := {}
@@ -221,7 +224,7 @@ def judgeLine (s : JState) (line : String) : JState :=
   | ["r", "ret", v] =>
     let s1 : JState := { s with pendingEv := s.pendingEv - 1, lastRet := true }
     s1.flag (judgeMapSeq s.lim v ++ judgeCallbacks s.lim)
-  | "r" :: "ret" :: _ => { s with pendingEv := s.pendingEv - 1, lastRet := true }
+  | "r" :: "ret" :: _ => ({ s with pendingEv := s.pendingEv - 1, lastRet := true } : JState).flag (judgeCallbacks s.lim)
   | "r" :: "err" :: _ => { s with pendingEv := s.pendingEv - 1, lastRet := false }
   | "obs" :: rest => { s with lastRet := false }.flag (judgeObs s.lim s.lastRet rest)
   | ["sz", "err"] => { s with pendingSz := s.pendingSz.drop 1 }
